@@ -612,6 +612,10 @@ def _val_history(rng):
         r = rng.random()
         if r < 0.06:
             c.append("assignz")
+        elif r < 0.14 and c[0].split()[1] == "w":
+            # an assignment whose payload copy fails (bad_alloc): nothing was assigned
+            c.append("assign_fail %d" % rng.randrange(1, 9))
+            c.append(rng.pick(["update", "update", "get"]))
         elif r < 0.12 and len(c) > 1 and c[-1].startswith("update"):
             prev = [l for l in c if l.startswith("assign ")]
             c.append(prev[-1] if prev else "assign 3")       # the same value again, after a hand-over
@@ -658,7 +662,7 @@ def nontrivial(case):
     pushes = 0
     for l in case:
         w = l.split()[0]
-        if w in ("push", "pushm", "assign", "assignz"):
+        if w in ("push", "pushm", "assign", "assignz", "assign_fail"):
             pushes += 1
         elif w in ("consume", "update") and pushes >= 2:
             return True
